@@ -26,11 +26,11 @@ Fixpoint le_unsigned (bs : bytes) : Z := match bs with [] => 0 | b :: r => Z.of_
 Definition signed_of (n : nat) (u : Z) : Z := if u <? 2^(8 * Z.of_nat n - 1) then u else u - 2^(8 * Z.of_nat n).
 Definition sdec (k : kind) (flen : nat) (bs : bytes) : option Z :=
   let want := match k with KI32 | KU32 | KF32 | KD32 => 4 | KI64 | KU64 | KF64 | KD64 => 8
-                         | KF16 => 2 | KBOOL => 1 | _ => flen end%nat in
-  if negb (length bs =? want)%nat then None else
+                         | KF16 => 2 | KBOOL => 1 | KDBA => length bs | _ => flen end%nat in
+  if negb (length bs =? want)%nat || (length bs =? 0)%nat then None else
   Some match k with
        | KI32 | KD32 | KI64 | KD64 => signed_of want (le_unsigned bs)
-       | KDF => signed_of want (le_unsigned (rev bs))
+       | KDF | KDBA => signed_of want (le_unsigned (rev bs))
        | _ => le_unsigned bs
        end.
 
